@@ -139,8 +139,28 @@ impl PersistWal {
         updates: &[Update],
         flush: bool,
     ) -> StorageResult<()> {
-        for update in updates {
-            self.append_inner(shard, update, false)?; // Don't flush individual entries
+        if updates.len() > 1 {
+            // A batch is one operation: write it as ONE checksummed line (a JSON array of
+            // entries). With one line per update a torn write (crash or power loss in the
+            // middle of the batch) left the first lines valid and recovery applied part of
+            // the batch.
+            let entries: Vec<WalEntry> = updates
+                .iter()
+                .map(|update| WalEntry {
+                    shard: shard.to_string(),
+                    update: update.clone(),
+                })
+                .collect();
+            let json = serde_json::to_string(&entries)
+                .map_err(|e| StorageError::Other(format!("WAL serialization failed: {e}")))?;
+            let checksum = Self::crc32_hex(json.as_bytes());
+            let writer = self.ensure_writer()?;
+            writeln!(writer, "{checksum}:{json}")?;
+            self.entries_written += entries.len();
+        } else {
+            for update in updates {
+                self.append_inner(shard, update, false)?; // Don't flush individual entries
+            }
         }
         if flush {
             // Flush once at the end for the whole batch and sync to disk
@@ -209,8 +229,14 @@ impl PersistWal {
                 }
             }
 
-            match serde_json::from_str::<WalEntry>(json_str) {
-                Ok(entry) => entries.push(entry),
+            // A line holds one entry, or a whole batch as a JSON array of entries
+            let parsed = if json_str.trim_start().starts_with('[') {
+                serde_json::from_str::<Vec<WalEntry>>(json_str)
+            } else {
+                serde_json::from_str::<WalEntry>(json_str).map(|e| vec![e])
+            };
+            match parsed {
+                Ok(batch) => entries.extend(batch),
                 Err(e) => {
                     tracing::warn!(
                         line = i + 1,
